@@ -27,7 +27,7 @@ func NewFeature(geometry Object, members string) *Feature {
 			if gjson.Get(members, "feature").Exists() {
 				members, _ = sjson.Delete(members, "feature")
 			}
-			members = string(pretty.UglyInPlace([]byte(members)))
+			members = string(pretty.Ugly([]byte(members)))
 			if members != "{}" {
 				g.extra = new(extra)
 				g.extra.members = members
